@@ -12,9 +12,11 @@ ChF(t, cols, named) == [t |-> t, cols |-> cols, named |-> named]
 Names(p) == [j \in 1..Len(p) |-> 1]
 Poss(p) == [j \in 1..Len(p) |-> 0]
 Mixed(p) == [j \in 1..Len(p) |-> j % 2]
-ScForms == {ChF("none", <<>>, <<>>)} \cup UNION {{ChF("list", p, sp) : sp \in {Names(p), Poss(p)}} : p \in Perms}
-ReqForms == {ChF("none", <<>>, <<>>)} \cup {ChF("scalar", <<c>>, <<n>>) : c \in 1..C, n \in {0, 1}}
-            \cup UNION {{ChF("list", p, sp) : sp \in {Names(p), Poss(p), Mixed(p)}} : p \in Perms}
+Negs(p) == [j \in 1..Len(p) |-> 2]            \* positions counted from the end (other form: refused or converted correctly)
+NegMixed(p) == [j \in 1..Len(p) |-> IF j = Len(p) THEN 2 ELSE 0]
+ScForms == {ChF("none", <<>>, <<>>)} \cup UNION {{ChF("list", p, sp) : sp \in {Names(p), Poss(p), Negs(p), NegMixed(p)}} : p \in Perms}
+ReqForms == {ChF("none", <<>>, <<>>)} \cup {ChF("scalar", <<c>>, <<n>>) : c \in 1..C, n \in {0, 1, 2}}
+            \cup UNION {{ChF("list", p, sp) : sp \in {Names(p), Poss(p), Mixed(p), Negs(p)}} : p \in Perms}
 Named(f) == \E j \in 1..Len(f.named) : f.named[j] = 1
 
 Init == stage = 0 /\ scn = <<>> /\ out = <<>>
